@@ -99,19 +99,55 @@ let do_holder mask ops =
   let ok = oracle_of_mask mask in
   let b = Buffer.create 256 in
   Buffer.add_string b "S holder";
-  let h = ref Oomtxn.holder_empty and k = ref Oomtxn.O in
+  let h = ref Oomtxn.holder2_init and k = ref Oomtxn.O in
   List.iter (fun tok ->
     let li () = nat_of_int (int_of_string (tail tok)) in
     let op = match tok.[0] with
-      | 'L' -> Oomtxn.CNewLabel | 'R' -> Oomtxn.CNewReloc | 'F' -> Oomtxn.CNewFixup (li ()) | 'E' -> Oomtxn.CEmbedLabel (li ())
-      | 'D' -> Oomtxn.CEmbedDelta | 'B' -> Oomtxn.CBind (li ()) | _ -> failwith "cop" in
-    let ((r, h1), k1) = Oomtxn.holder_step ok true op !h !k in
+      | 'L' -> Oomtxn.CBase Oomtxn.CNewLabel | 'R' -> Oomtxn.CBase Oomtxn.CNewReloc | 'F' -> Oomtxn.CBase (Oomtxn.CNewFixup (li ()))
+      | 'E' -> Oomtxn.CBase (Oomtxn.CEmbedLabel (li ())) | 'D' -> Oomtxn.CBase Oomtxn.CEmbedDelta | 'B' -> Oomtxn.CBase (Oomtxn.CBind (li ()))
+      | 'S' -> Oomtxn.CNewSection (cz_of_string (tail tok)) | 'A' -> Oomtxn.CAddAddress (cz_of_string (tail tok))
+      | 'C' -> Oomtxn.CCallAbs (cz_of_string (tail tok))
+      | _ -> failwith "cop" in
+    let ((r, h1), k1) = Oomtxn.holder2_step ok true op !h !k in
     h := h1; k := k1;
-    Buffer.add_string b (Printf.sprintf " %d/%d/%d/%d/%d" (rc r) (List.length h1.Oomtxn.ho_labels) (List.length h1.Oomtxn.ho_relocs)
-                           (zi h1.Oomtxn.ho_unresolved) (int_of_nat h1.Oomtxn.ho_fixup_pool))) ops;
+    let bs = h1.Oomtxn.h2_base and ss = h1.Oomtxn.h2_sects in
+    Buffer.add_string b (Printf.sprintf " %d/%d/%d/%d/%d/%d/%d" (rc r) (List.length bs.Oomtxn.ho_labels) (List.length bs.Oomtxn.ho_relocs)
+                           (zi bs.Oomtxn.ho_unresolved) (int_of_nat bs.Oomtxn.ho_fixup_pool) (List.length ss.Oomtxn.ss_orders)
+                           (List.length ss.Oomtxn.ss_entries))) ops;
+  let bs = !h.Oomtxn.h2_base and ss = !h.Oomtxn.h2_sects in
   Buffer.add_string b (" | " ^ join "," (List.map (fun l ->
-    Printf.sprintf "%d:%d" (if l.Oomtxn.l_bound then 1 else 0) (List.length l.Oomtxn.l_fixups)) !h.Oomtxn.ho_labels));
-  Buffer.add_string b (" | " ^ join "," (List.map string_of_cz !h.Oomtxn.ho_relocs));
+    Printf.sprintf "%d:%d" (if l.Oomtxn.l_bound then 1 else 0) (List.length l.Oomtxn.l_fixups)) bs.Oomtxn.ho_labels));
+  Buffer.add_string b (" | " ^ join "," (List.map string_of_cz bs.Oomtxn.ho_relocs));
+  Buffer.add_string b (" | " ^ join "," (List.map string_of_cz ss.Oomtxn.ss_orders));
+  Buffer.add_string b (" | " ^ join "," (List.map (fun n -> string_of_int (int_of_nat n)) ss.Oomtxn.ss_by_order));
+  Buffer.add_string b (" | " ^ (match ss.Oomtxn.ss_addrtab with Some n -> string_of_int (int_of_nat n) | None -> "-"));
+  Buffer.add_string b (Printf.sprintf " req=%d" (int_of_nat !k));
+  print_endline (Buffer.contents b)
+
+let do_builder mask ops =
+  let ok = oracle_of_mask mask in
+  let b = Buffer.create 256 in
+  Buffer.add_string b "S builder";
+  let h = ref Oomtxn.holder2_init and bl = ref Oomtxn.bld_init and k = ref Oomtxn.O in
+  List.iter (fun tok ->
+    let arg () = nat_of_int (int_of_string (tail tok)) in
+    let r =
+      match tok.[0] with
+      | 'S' ->
+        let ((r, h1), k1) = Oomtxn.holder2_step ok true (Oomtxn.CNewSection (cz_of_string (tail tok))) !h !k in
+        h := h1; k := k1; r
+      | c ->
+        let op = (match c with 'n' -> Oomtxn.BNewLabel | 'b' -> Oomtxn.BBind (arg ()) | 's' -> Oomtxn.BSection (arg ()) | 'i' -> Oomtxn.BInst | _ -> failwith "bop") in
+        let (((r, h1), b1), k1) = Oomtxn.builder_step ok op !h !bl !k in
+        h := h1; bl := b1; k := k1; r in
+    Buffer.add_string b (Printf.sprintf " %d/%d/%d/%d/%d" (rc r) (List.length !h.Oomtxn.h2_base.Oomtxn.ho_labels) (List.length !bl.Oomtxn.b_lnodes)
+                           (List.length !bl.Oomtxn.b_snodes) (List.length !h.Oomtxn.h2_sects.Oomtxn.ss_orders))) ops;
+  Buffer.add_string b " |";
+  List.iter (fun (sid, ns) ->
+    Buffer.add_string b (Printf.sprintf " S%d" (int_of_nat sid));
+    List.iter (fun n -> Buffer.add_string b (match n with Oomtxn.NInst -> " I" | Oomtxn.NLabel li -> Printf.sprintf " L%d" (int_of_nat li))) ns) !bl.Oomtxn.b_secs;
+  Buffer.add_string b (" | l" ^ String.concat "" (List.map (fun x -> if x then "1" else "0") !bl.Oomtxn.b_lnodes));
+  Buffer.add_string b (" | s" ^ String.concat "" (List.map (fun x -> if x then "1" else "0") !bl.Oomtxn.b_snodes));
   Buffer.add_string b (Printf.sprintf " req=%d" (int_of_nat !k));
   print_endline (Buffer.contents b)
 
@@ -127,6 +163,7 @@ let () =
         | "S" :: "hash" :: mask :: ops -> do_hash mask ops
         | "S" :: "pool" :: mask :: ops -> do_pool mask ops
         | "S" :: "holder" :: mask :: ops -> do_holder mask ops
+        | "S" :: "builder" :: mask :: ops -> do_builder mask ops
         | [] -> ()
         | _ -> print_endline "BAD"
       with Failure m -> print_endline ("BAD " ^ m))
